@@ -358,12 +358,19 @@ def evaluate(prop, drv, cases, variants=None):
     """Run impl + model + judge on cases. Returns list of dict per case."""
     variants = variants or prop.variants
     impl_outs = pmap_impl(prop, cases)
+    # a timeout under load is retried serially once with a doubled limit before it counts
+    for k, o in enumerate(impl_outs):
+        if o == ["IMPL-TIMEOUT"]:
+            impl_outs[k] = run_impl_safe(prop, cases[k], prop.case_timeout_s * 2)
+    from_impl = getattr(prop, "model_block_from_impl", None)
     res = [dict(case=c, impl=o, agree=None, variant=None, judge=None, model=None) for c, o in zip(cases, impl_outs)]
     pending = list(range(len(cases)))
     for v in variants:
         if not pending:
             break
-        outs = drv.run_blocks([prop.model_block(cases[i], v) for i in pending])
+        outs = drv.run_blocks([
+            from_impl(cases[i], v, res[i]["impl"]) if from_impl else prop.model_block(cases[i], v)
+            for i in pending])
         still = []
         for i, o in zip(pending, outs):
             o = prop.model_postprocess(cases[i], o)
